@@ -79,10 +79,4 @@ theorem pt_lt_bnd_iff (mid : ℚ → ℚ → ℚ) (hm : Between mid) (hi : MidId
     have h2 := bnd_mono mid hm hi ax hs (k + 1) t (by omega) (by omega)
     linarith
 
-/-- the same with the clamp length `n0` of the n-d branch (all axes have the length of the first one) -/
-theorem pt_lt_bnd_iff' (mid : ℚ → ℚ → ℚ) (hm : Between mid) (hi : MidIdem mid) (ax : List ℚ) (hs : StrictInc ax)
-    (n0 : ℕ) (hn : ax.length = n0) (t k : ℕ) (ht : t < n0) (hk : k < n0) :
-    pt ax k < bnd mid n0 ax t ↔ k < t := by
-  subst hn; exact pt_lt_bnd_iff mid hm hi ax hs t k ht hk
-
 end Rpylib.Credit
